@@ -664,6 +664,160 @@ func TestVerif_C27(t *testing.T) {
 		}
 	}
 	r.Extra("family_trees", nFamily)
+
+	// part 2: one rewrite run over SEVERAL snapshots (no snapshot argument): every snapshot of the run must get the
+	// tree and the summary statistics of its own filtered tree, whatever was rewritten before it in the same run
+	if r.Case("multi-snapshot-run") && !r.Expired() {
+		verifC27Multi(t, ctx, r, initState, gopts, &curBE, modes, trees)
+	}
+}
+
+func verifC27Multi(t *testing.T, ctx context.Context, r *vh.Run, initState gatebe.State, gopts global.Options, curBE *backend.Backend, modes map[string]verifC27Mode, trees []verifC27Tree) {
+	var pick []verifC27Tree
+	for _, tr := range trees {
+		if !tr.Family && !tr.NoSummary && !tr.Twin && len(tr.Entries) >= 5 && len(pick) < 3 {
+			pick = append(pick, tr)
+		}
+	}
+	if len(pick) < 2 {
+		return
+	}
+	ck := "multi-snapshot-run"
+	var fxs []*verifC27Fixture
+	state := initState
+	for _, tr := range pick {
+		fx := verifC27Forge(t, ctx, state, tr)
+		state = fx.state
+		fxs = append(fxs, fx)
+	}
+	r.State("multi")
+	sets := [][]string{{"zzz-matches-nothing"}, {"b"}, {"a"}, {"/a/b"}, {"*b"}, {"ab"}}
+	for _, ps := range sets {
+		for _, mname := range []string{"exclude", "include"} {
+			mode := modes[mname]
+			lists := mode.lists(ps)
+			vid := fmt.Sprintf("%s|%s", mode.name, strings.Join(ps, " "))
+			detail := map[string]any{"patterns": ps, "mode": mode.name, "snapshots_in_run": len(fxs)}
+			store := gatebe.NewStoreFrom(state, nil)
+			*curBE = &gatebe.Backend{S: store, Proc: "rewrite", Conns: 3, AtomicReplace: true}
+			opts := RewriteOptions{}
+			mode.set(&opts, ps)
+			var rerr error
+			panicked, pmsg := vh.NoPanic(func() {
+				rerr = verifRun(t, ctx, gopts, func(ctx context.Context, gopts global.Options) error {
+					return runRewrite(ctx, opts, gopts, nil, gopts.Term)
+				})
+			})
+			r.Eval(1)
+			r.Trace(1)
+			if panicked || rerr != nil {
+				r.Violationf(ck, "C27|multi|error|"+vid, detail, "runRewrite over all snapshots failed: %v %s", rerr, pmsg)
+				continue
+			}
+			after := store.Snapshot()
+			repo, _, err := oracle.Open(ctx, after, oracle.Password)
+			if err == nil {
+				err = repo.LoadIndex(ctx, restic.NoopTerminalCounterFactory)
+			}
+			if err != nil {
+				r.Violationf(ck, "C27|multi|reopen|"+vid, detail, "the repository cannot be opened after rewrite: %v", err)
+				continue
+			}
+			// new snapshots by the snapshot they were made from
+			byOrig := map[restic.ID][]*data.Snapshot{}
+			old := map[restic.ID]bool{}
+			for _, fx := range fxs {
+				old[fx.snapID] = true
+			}
+			for k := range after {
+				if k.Type != backend.SnapshotFile {
+					continue
+				}
+				id, err := restic.ParseID(k.Name)
+				if err != nil || old[id] {
+					continue
+				}
+				sn, err := data.LoadSnapshot(ctx, repo, id)
+				if err != nil || sn.Tree == nil || sn.Original == nil {
+					r.Violationf(ck, "C27|multi|new-snapshot-unreadable|"+vid, detail, "new snapshot %v unreadable, without tree or without original: %v", id.Str(), err)
+					continue
+				}
+				byOrig[*sn.Original] = append(byOrig[*sn.Original], sn)
+			}
+			for i, fx := range fxs {
+				entries := fx.tree.sorted()
+				kept, matching := verifC27Kept(entries, lists, mode.exclude)
+				sub := fmt.Sprintf("%s|#%d:%s", vid, i, fx.tree.Name)
+				if _, ok := after[gatebe.FileKey{Type: backend.SnapshotFile, Name: fx.snapID.String()}]; !ok {
+					r.Violationf(ck, "C27|multi|old-snapshot-removed|"+sub, detail, "rewrite without --forget removed the original snapshot")
+				}
+				unchangedExpected := len(kept) == len(fx.nodes) || (!mode.exclude && matching == 0)
+				news := byOrig[fx.snapID]
+				if unchangedExpected {
+					if len(news) == 0 {
+						r.Outcome("multi-unchanged")
+					} else {
+						r.Outcome("VIOLATION multi-unexpected-new-snapshot")
+						r.Violationf(ck, "C27|multi|unexpected-new-snapshot|"+sub, detail, "nothing is removed from snapshot #%d of the run, yet a new snapshot was saved for it (tree %v, old tree %v)", i, news[0].Tree.Str(), fx.treeID.Str())
+					}
+					continue
+				}
+				if len(news) != 1 {
+					r.Violationf(ck, "C27|multi|new-snapshot-count|"+sub, detail, "the model removes %d of %d entries of snapshot #%d of the run; %d new snapshots were saved for it", len(fx.nodes)-len(kept), len(fx.nodes), i, len(news))
+					continue
+				}
+				r.Nontrivial("multi|" + sub)
+				sn := news[0]
+				nodes, kinds, sizes, subtree := map[string]string{}, map[string]data.NodeType{}, map[string]uint64{}, map[string]restic.ID{}
+				if err := verifC27Walk(ctx, repo, *sn.Tree, "", nodes, kinds, sizes, subtree, 0); err != nil {
+					r.Violationf(ck, "C27|multi|new-tree-unreadable|"+sub, detail, "the new tree cannot be read: %v", err)
+					continue
+				}
+				okTree := len(nodes) == len(kept)
+				for p, j := range nodes {
+					if !kept[p] || (kinds[p] != data.NodeTypeDir && j != fx.nodes[p]) {
+						okTree = false
+					}
+				}
+				if !okTree {
+					r.Outcome("VIOLATION multi-tree")
+					r.Violationf(ck, "C27|multi|tree|"+sub, detail, "snapshot #%d of the run: new tree has entries %v, the model keeps %v", i, verifC27SortedKeys(nodes), verifC27Sorted(kept))
+					continue
+				}
+				var wantFiles, wantLinks uint
+				var wantBytes uint64
+				for p := range kept {
+					switch fx.kinds[p] {
+					case data.NodeTypeFile:
+						wantFiles++
+						wantBytes += fx.sizes[p]
+					case data.NodeTypeSymlink:
+						wantLinks++
+					}
+				}
+				if sn.Summary == nil || sn.Summary.TotalBytesProcessed != wantBytes || sn.Summary.TotalFilesProcessed < wantFiles || sn.Summary.TotalFilesProcessed > wantFiles+wantLinks {
+					var gf uint
+					var gb uint64
+					if sn.Summary != nil {
+						gf, gb = sn.Summary.TotalFilesProcessed, sn.Summary.TotalBytesProcessed
+					}
+					r.Outcome("VIOLATION multi-summary")
+					r.Violationf(ck, "C27|multi|summary|"+sub, detail, "snapshot #%d of the run: summary TotalFilesProcessed=%d TotalBytesProcessed=%d; its kept tree has %d regular files (+%d symlinks) with %d bytes", i, gf, gb, wantFiles, wantLinks, wantBytes)
+					continue
+				}
+				r.Outcome("multi-ok")
+			}
+		}
+	}
+}
+
+func verifC27SortedKeys(m map[string]string) []string {
+	l := make([]string, 0, len(m))
+	for k := range m {
+		l = append(l, k)
+	}
+	sort.Strings(l)
+	return l
 }
 
 func verifC27Kinds(t verifC27Tree) map[string]string {
